@@ -1,0 +1,9 @@
+//go:build verif && solaris
+
+package fsnotify
+
+// Contracts for backend_fen.go, read by /verif's verification-condition
+// generator. Comment-only; compiled only with -tags verif.
+
+//@ func (w *fen) xSupports(op Op) (r bool)
+//@   ensures r <==> (op & (xUnportableOpen | xUnportableRead | xUnportableCloseWrite | xUnportableCloseRead) == 0)     [C15]
